@@ -57,11 +57,11 @@ CLAIMS = {
     'C06': dict(level='exploration', engine='bounded+pysym+frames',
                 text=B_NOTE + 'sssr post-conditions (count, simple cycles, GF(2) independence, minimum total size, numbering-free size multiset) and ring marks '
                 'on every connected graph <= 6 (quick) / <= 7 atoms and 8 atoms <= 3 rings (thorough), random assemblies, macrocycles, corpus; the two '
-                'recorded gaps detected on the graph by an exact oracle. Deductive (P): _canonic_ring is invariant under every rotation / reflection of the '
+                'recorded gaps detected on the graph by an exact oracle. Deductive (P): the whole real rings_count equals bonds - atoms + components for symbolic degrees, bond count and component count (atoms 1-6 quick, 1-12 thorough; the callee _connected_components enters through its contract only and its body is judged by the bounded part), the whole real not_special_connectivity drops exactly the order-8 bonds in both directions (real Bond objects with symbolic order, degree 1-4); _canonic_ring is invariant under every rotation / reflection of the '
                 'ring, returns one of them and starts at the minimum (symbolic atom numbers, length 3-4 quick, 3-6 thorough).' + F_NOTE,
                 note='Trusted: networkx minimum_cycle_basis, oracles/o06_gaps.py (exact theta-subgraph oracle, cross-checked every run). Minimality of a '
                      'heuristic for all graphs is not decidable by contracts.' + U_NOTE,
-                technique='exhaustive small-graph enumeration with cycle-space oracles + symbolic execution of the ring canonicaliser + frame analysis'),
+                technique='exhaustive small-graph enumeration with cycle-space oracles + symbolic execution of the ring canonicaliser, the cyclomatic-number formula and the coordinate-bond filter + frame analysis'),
     'C07': dict(level='exploration', engine='bounded+pysym+frames',
                 text=B_NOTE + 'mapping multisets against an exhaustive reference enumerator (scope, automorphism filter, operators), structural contract of '
                 '_compile_query on every small pattern, lazy_product against itertools.product. Deductive (P): <, <=, >, >=, is_substructure, is_equal are '
@@ -150,7 +150,7 @@ CLAIMS = {
     'C18': dict(level='proof', engine='tables',
                 text='Every clause is a universally quantified statement over a finite key set (118 elements x tabulated isotopes x charges x hydrogens); '
                      'the check reads the tables of the current tree and enumerates the key set completely, one obligation per key, including the executed '
-                     'codec and both matchers per atom state, so a pass is a proof for this tree.',
+                     'codec and both matchers per atom state, and the symbol / number lookups through every receiver (each element class, an atom of each, each query and dynamic class) with the memoised number table cold, so a pass is a proof for this tree.',
                 note='Trusted: CPython, the IUPAC symbol list embedded in the check, regex extraction of the .pyx literal tables, the published bit layouts '
                      '(5-bit pack isotope code, matcher word III bits 46..62), CachedMethods shim. 19 reference isotopes missing from the nuclide tables are '
                      'recorded in known_findings.jsonl.' + U_NOTE,
